@@ -95,6 +95,80 @@ func checkC06(r *core.Run) {
 	c06UndoRecord(r, p)
 	c06UndoApply(r, p)
 	c06Order(r, p)
+	c06FlagsAfterHeight(r, p)
+}
+
+// c06FlagsAfterHeight: a block re-read from the store (NewBlock in the same function) has height 0 until
+// it is assigned; ApplyBlockFlags derives the script-verification flags from that field. Wherever such a
+// block is given its flags - the reorganisation path and the two re-apply paths of the client - the
+// assignment of the tree node's height must come first, otherwise every block connected through a
+// reorganisation is verified with the rules of height 0.
+func c06FlagsAfterHeight(r *core.Run, p *core.Program) {
+	const rule = "R-C06-order"
+	n := 0
+	for _, f := range p.ModuleFuncs() {
+		for _, c := range an.CallsTo(f, false, "(*lib/chain.Chain).ApplyBlockFlags") {
+			args := c.Common().Args
+			if len(args) < 2 {
+				continue
+			}
+			bl := args[1]
+			ex, ok := bl.(*ssa.Extract)
+			if !ok {
+				continue // a block handed in by the caller: its height is the caller's business (PostCheckBlock)
+			}
+			nb, ok := ex.Tuple.(*ssa.Call)
+			if !ok || an.CallName(nb) != "lib/btc.NewBlock" {
+				continue
+			}
+			n++
+			okH := false
+			an.Instrs(f, func(i ssa.Instruction) {
+				st, ok := i.(*ssa.Store)
+				if !ok {
+					return
+				}
+				fa, ok := st.Addr.(*ssa.FieldAddr)
+				if !ok {
+					return
+				}
+				if fl, _ := an.FieldOf(fa); !strings.HasSuffix(fl, ".Height") {
+					return
+				}
+				// the field may sit in an embedded struct: walk to the object
+				root := fa.X
+				for {
+					in, ok := root.(*ssa.FieldAddr)
+					if !ok {
+						break
+					}
+					root = in.X
+				}
+				if root != bl {
+					return
+				}
+				if !strings.HasSuffix(an.Expr(st.Val), ".Height") {
+					return
+				}
+				ci := c.(ssa.Instruction)
+				if st.Block() == ci.Block() {
+					for _, x := range st.Block().Instrs {
+						if x == ssa.Instruction(st) {
+							okH = true
+							break
+						}
+						if x == ci {
+							break
+						}
+					}
+				} else if st.Block().Dominates(ci.Block()) {
+					okH = true
+				}
+			})
+			r.Check(okH, rule, "flags-after-height/"+core.FuncName(f), p.Pos(an.InstrPos(c.(ssa.Instruction))), "the re-read block gets its tree height before its verification flags are derived", "the verification flags of a block re-read from the store are derived before its height is assigned (it is 0 then): blocks connected on this path are verified with the rules of height 0")
+		}
+	}
+	r.Check(n >= 1, rule, "flags-after-height/sites", "-", fmt.Sprintf("%d sites give flags to a re-read block", n), "no site found that re-reads a block and derives its flags (the reorganisation path)")
 }
 
 func c06UndoRecord(r *core.Run, p *core.Program) {
